@@ -223,6 +223,12 @@ def insertion_points(text, spans):
     return pts
 
 
+# (no wording of any kind inside the glued tokens themselves)
+GLUED_RIGHT = ['-per-exhibit-A-attached-hereto-and-made-a-part-hereof-by-reference',
+               '(see-exhibit-A)(see-exhibit-B)(see-exhibit-C)(see-exhibit-D)']
+GLUED_LEFT = ['(per-exhibit-A-attached)', '***NOTE***:']
+
+
 def gen_trigger_case(rng):
     base = G.gen_case(rng, max_groups=2, max_secs=2,
                       block_kinds=('aliquot', 'aliquots', 'lots',
@@ -243,9 +249,18 @@ def gen_trigger_case(rng):
             phrase = phrase.upper()         # 'SURFACE TO THE BASE OF'
         elif r_ < 0.24:
             phrase = phrase.title()
-        # whatever ordinary words follow the wording
-        phrase += rng.choice(['', '', '', ' as drilled', ' as shown on the plat',
-                              ' only', ' thereof', ' if any', ' as to all'])
+        r2 = rng.random()
+        if r2 < 0.1:
+            # a long blank-free token glued to the wording (no blank to
+            # cut the context window at): the key word is still shown
+            phrase += rng.choice(GLUED_RIGHT)
+        elif r2 < 0.18:
+            phrase = rng.choice(GLUED_LEFT) + phrase
+        else:
+            # whatever ordinary words follow the wording
+            phrase += rng.choice(['', '', '', ' as drilled',
+                                  ' as shown on the plat', ' only',
+                                  ' thereof', ' if any', ' as to all'])
         second = None
         if kind == pair_kind:
             # Two wordings of the same kind, 10-70 characters of ordinary
